@@ -287,9 +287,9 @@ pub fn named_content_formats() -> Vec<(ContentFormat, usize)> {
 pub fn run_c05(ctx: &mut Ctx) {
     let level = ctx.level;
     let rep = &mut ctx.rep;
-    // level 0 (interpreter-sized) walks every 97th unnamed number; every named row is always checked
+    // level 0 (interpreter-sized) walks every 997th unnamed number; every named row is always checked
     rep.exhaustive = level > 0;
-    let keep = |n: usize, named: bool| level > 0 || named || n % 97 == 0;
+    let keep = |n: usize, named: bool| level > 0 || named || n % 997 == 0;
     set_case_str("C05 registry sweep");
 
     // ---- options: all 65536 numbers
@@ -515,7 +515,10 @@ pub fn run_c05(ctx: &mut Ctx) {
     for v in 0..4u8 {
         for (ti, t) in types.iter().enumerate() {
             for tkl in (0..16u8).step_by(if level == 0 { 5 } else { 1 }) {
-                for ord in orders.iter() {
+                for (oi, ord) in orders.iter().enumerate() {
+                    if level == 0 && oi % 5 != 0 {
+                        continue;
+                    }
                     rep.eval();
                     let r = guard(|| {
                         let mut p = Packet::new();
@@ -544,7 +547,7 @@ pub fn run_c05(ctx: &mut Ctx) {
     }
 
     // ---- observe actions
-    for n in (0..=2000usize).step_by(if level == 0 { 37 } else { 1 }).chain([1usize, 2, 65535, 65536, 1 << 24, usize::MAX]) {
+    for n in (0..=2000usize).step_by(if level == 0 { 211 } else { 1 }).chain([1usize, 2, 65535, 65536, 1 << 24, usize::MAX]) {
         rep.eval();
         let r = ObserveOption::try_from(n);
         let ok = match (n, &r) {
